@@ -371,6 +371,9 @@ def getlist(S, tgt):
 
 
 def real_list(U, tgt):
+    st = getattr(U, 'stale', None)
+    if st is not None and tgt in st:
+        return st[tgt]  # a list view obtained before an earlier call (h_stale_view)
     return U.tasks[tgt[1]].children if tgt[0] == 'T' else U.wbss[tgt[1] - 1].roots
 
 
@@ -419,6 +422,8 @@ class Op:
 
 
 def pick_target(U, with_wbs=True):
+    if getattr(U, 'force_tgt', None) is not None:
+        return U.force_tgt
     n = U.N + (U.nW if with_wbs else 0)
     k = choose('tgt', n)
     return ('T', k) if k < U.N else ('W', k - U.N + 1)
@@ -880,6 +885,14 @@ def h_step(cfg):
                     if same:
                         check(U.ids[a] != U.ids[b], 'C05 equal ids inside one tree/WBS after an accepted call',
                               detail=_opkind(op.desc))
+            # WBS.tasks lists every member exactly once, depth first
+            for k, wk in enumerate(U.wbss):
+                try:
+                    order = [U.index.get(id(t), '?') for t in wk.tasks]
+                except RecursionError:
+                    order = ['?']
+                check(len(set(order)) == len(order), 'C05 WBS.tasks lists a member more than once', detail=_opkind(op.desc))
+                check(order == reach_from_roots(post, k), 'C05 WBS.tasks is not the depth-first enumeration', detail=_opkind(op.desc))
             check(True, 'C05 (accepted)')
         else:
             check(True, 'C05 (rejected)')
@@ -1041,3 +1054,63 @@ def h_generator(cfg):
     check(snap_diff(a, b) is None, 'GENERATOR direct construction differs from public-API construction',
           detail=str(snap_diff(a, b)))
     check(inv_hierarchy(a) is None and inv_links(a) is None and inv_owner(a) is None, 'GENERATOR state breaks Inv')
+
+
+# ---------------------------------------------------------------------------
+# two steps, the second one through a list view obtained before the first one
+
+VIEW_OPS = ['ch_sort', 'ch_reorder', 'ch_move', 'ch_remove', 'ch_append', 'ch_insert', 'ch_remove_all']
+
+
+def h_stale_view(cfg):
+    """task.children / wbs.roots return view objects; a program may keep one across other calls."""
+    import zlib
+    shape = gen_shape(cfg['N'], cfg['nW'], links=cfg.get('links', False))
+    U = build(shape)
+    tgt = pick_target(U)
+    view = real_list(U, tgt)  # the view a program keeps
+    pre = choose('pre', 3)  # another call through a fresh view that re-orders the same list first
+    pre_desc = ''
+    try:
+        if pre == 1:
+            real_list(U, tgt).sort('key')
+            pre_desc = 'sort ; '
+        elif pre == 2:
+            members = [c for c in real_list(U, tgt)]
+            if members:
+                real_list(U, tgt).reorder([members[-1].id])
+                pre_desc = 'reorder ; '
+    except Exception:
+        pass
+    op1 = pick_op(U, cfg['ops1'], 1)
+    try:
+        op1.run()
+    except Exception:
+        pass
+    U.stale = {tgt: view}
+    U.force_tgt = tgt
+    op2 = pick_op(U, cfg.get('ops2', VIEW_OPS), 1)
+    op1 = Op(pre_desc + op1.desc, None, None)
+    desc = describe(shape) + ' :: ' + op1.desc + ' ; then through an earlier view: ' + op2.desc
+    note('desc', desc)
+    note('class', zlib.crc32(desc.encode()))
+    mid = snapshot(U)
+    raised = None
+    try:
+        op2.run()
+    except Exception as e:
+        raised = e
+    post = snapshot(U)
+    sig = _opkind(op1.desc) + ' ; ' + _opkind(op2.desc)
+    for prop in cfg['props']:
+        if prop == 'C01':
+            b = inv_hierarchy(post)
+            check(b is None, 'C01 hierarchy is a forest', detail=_gen(b) + ' [earlier view] ' + sig)
+            b = inv_links(post)
+            check(b is None, 'C01 dependency links well-formed', detail=_gen(b) + ' [earlier view] ' + sig)
+        elif prop == 'C11':
+            b = inv_owner(post)
+            check(b is None, 'C11 owner report differs from membership', detail=_gen(b) + ' [earlier view] ' + sig)
+        elif prop == 'C15' and raised is not None:
+            d = snap_diff(mid, post)
+            check(d is None, 'C15 rejected call changed state', detail=_gen(d) + ' [earlier view] ' + sig)
